@@ -22,6 +22,7 @@ import (
 	"strconv"
 	"strings"
 	"sync"
+	"syscall"
 	"sync/atomic"
 	"time"
 
@@ -1040,4 +1041,58 @@ func readHTTP1Reply(br *bufio.Reader) error {
 	_, err = io.Copy(io.Discard, resp.Body)
 	resp.Body.Close()
 	return err
+}
+
+// ------------------------------------------------------------------------------------------------ blackhole
+
+// blackhole is a listening socket with backlog 0 that never accepts: once its accept queue is full the kernel drops further
+// SYNs, so a connect to it neither succeeds nor is refused — it times out (the connect-timeout path, which a closed port cannot
+// produce on loopback).
+type blackhole struct {
+	fd     int
+	addr   string
+	filler []net.Conn
+}
+
+func startBlackhole() (*blackhole, error) {
+	fd, err := syscall.Socket(syscall.AF_INET, syscall.SOCK_STREAM, 0)
+	if err != nil {
+		return nil, err
+	}
+	sa := &syscall.SockaddrInet4{Port: 0, Addr: [4]byte{127, 0, 0, 1}}
+	if err := syscall.Bind(fd, sa); err != nil {
+		syscall.Close(fd)
+		return nil, err
+	}
+	if err := syscall.Listen(fd, 0); err != nil {
+		syscall.Close(fd)
+		return nil, err
+	}
+	got, err := syscall.Getsockname(fd)
+	if err != nil {
+		syscall.Close(fd)
+		return nil, err
+	}
+	b := &blackhole{fd: fd, addr: fmt.Sprintf("127.0.0.1:%d", got.(*syscall.SockaddrInet4).Port)}
+	// fill the accept queue until a connect no longer completes
+	for i := 0; i < 16; i++ {
+		cn, err := net.DialTimeout("tcp", b.addr, 250*time.Millisecond)
+		if err != nil {
+			if ne, ok := err.(net.Error); ok && ne.Timeout() {
+				return b, nil
+			}
+			b.close()
+			return nil, fmt.Errorf("blackhole: unexpected dial error %v", err)
+		}
+		b.filler = append(b.filler, cn)
+	}
+	b.close()
+	return nil, fmt.Errorf("blackhole: the accept queue never filled up")
+}
+
+func (b *blackhole) close() {
+	for _, c := range b.filler {
+		c.Close()
+	}
+	syscall.Close(b.fd)
 }
